@@ -78,6 +78,7 @@ def jobs(tier, seed, pool):
         ver = r.choice(['OB', 'FO3', 'SK', 'SSE', 'FO4', 'FO76'])
         init = {'settle': r.chance(0.5), 'builder': {'version': ver, 'salt': r.below(1 << 30), 'nodes': r.below(3),
                                                      'shapes': [hist.shape_spec(r, ver, tier, name='s%d' % k) for k in range(r.range(1, 2))]}}
+        hist.maybe_attach(r, init, 0.4)
         add(init, r.chance(0.5), kind='builder')
     return out
 
